@@ -17,6 +17,9 @@ type Flight struct {
 	// Parent is the flight whose delivery made the sender create this
 	// message (0 if none/unknown).
 	Parent int
+	// Held flights are not delivered until released (a message stuck in a
+	// slow stream, e.g. a snapshot).
+	Held bool
 	// Deliveries counts how often it was delivered (duplicates).
 	Deliveries int
 	// AckTerm is, for a non-reject MsgAppResp, the term the sender's log had
@@ -103,7 +106,7 @@ func (nt *Net) blocked(from, to uint64) bool { return nt.Blocked[[2]uint64{from,
 func (nt *Net) deliverable() []int {
 	var out []int
 	for i, f := range nt.Pool {
-		if nt.blocked(f.From, f.To) {
+		if f.Held || nt.blocked(f.From, f.To) {
 			continue
 		}
 		n := nt.s.Nodes[f.To]
